@@ -78,6 +78,42 @@ CHECKS = {
         note=TB + "; assumes C01 (power index is the standard class 1..=7462).",
         technique="static analysis: MIR decision-tree extraction (interval partition) vs independent class oracle, exhaustive over 7462 indexes",
     ),
+    "C13": dict(
+        cat="proof",
+        text="Complete for the stated finite domain: every encoding table is extracted from the type-checked program and "
+             "checked entry by entry — 13+4 codes = declaration index with derived Ord, next/prev (26 entries), char tables in "
+             "both directions with an interval partition of the whole char domain (every other code point rejected), the 52 "
+             "bit encodings (single distinct bit < 2^52) and the if-cascade decoder evaluated on each, RANKS/SUITS, the three "
+             "range constructors and both slicing arms, the Display template and FromStr shape of Card. All obligations "
+             "discharged on every run; tests cover 13 of 52 cards.",
+        ref="DESIGN.md §4 C13",
+        note=TB + "; reversed range endpoints are outside the property's domain.",
+        technique="static analysis: MIR decision-tree / interval-partition extraction, const evaluation, fmt template decoding; exhaustive over the finite tables",
+    ),
+    "C14": dict(
+        cat="other",
+        text="Who-may-construct over every body of the crate (all targets in the thorough tier): the CardPair tuple constructor is "
+             "used only in CardPair::new and both fields are private (compile_fail witnesses from outside the crate in the "
+             "thorough tier); new's decision tree stores the smaller card first on every path under the derived total order "
+             "of Card; Eq/Hash/Ord impls are derived; FromStr builds through new from bytes [0..2],[2..4] under len==4; "
+             "Display emits exactly the two cards; Index 0/1 return fields 0/1. Together: new(a,b)==new(b,a), equal hashes, "
+             "pair[0]<=pair[1], text round trip, for all 52x51 pairs.",
+        ref="DESIGN.md §4 C14",
+        note=TB + "; relies on C13 for Card's text being a bijection.",
+        technique="static analysis: who-may-construct query over MIR aggregates, decision tree of the constructor, derived-impl facts, compile_fail type witnesses",
+    ),
+    "C15": dict(
+        cat="proof",
+        text="Decides the stated mechanism for every interleaving and thread schedule: no body reachable from the evaluator "
+             "entry points (resolved call graph incl. closures and trait-bound callbacks) touches a static, a thread-local "
+             "or user unsafe; every type reachable through the fields of the evaluator, its iterator, ranges and showdowns "
+             "is Freeze, Send, Sync, lifetime-free and has no reference/raw-pointer/Rc/Arc/lock/cell/atomic field; inputs "
+             "are cloned; hashers are deterministic. In safe Rust two live iterators then share no mutable location. "
+             "Send+Sync also witnessed by a crate compiled against the tree (thorough), with a compile_fail twin.",
+        ref="DESIGN.md §4 C15",
+        note=TB + "; std/regex/fxhash assumed data-race-free behind safe APIs.",
+        technique="static analysis: effect/ownership audit over the reachable call graph (statics, TLS, unsafe), type-structure audit (Freeze/Send/Sync via trait selection), compile-time witnesses",
+    ),
 }
 
 NA = [
